@@ -60,6 +60,21 @@ class OKey:
         return f'OKey({self.v})'
 
 
+class TieKey:
+    """Hashable keys for which < is always False (never raises): every pair is a tie for a sort."""
+
+    __slots__ = ('v',)
+
+    def __init__(self, v):
+        self.v = v
+
+    def __lt__(self, o):
+        return False if type(o) is TieKey else NotImplemented
+
+    def __repr__(self):
+        return f'TieKey({self.v})'
+
+
 class HKey:
     """Keys whose hashes all collide (forces __eq__ during lookups); totally ordered."""
 
@@ -102,6 +117,9 @@ KEY_STYLES = (
     'frozenset',  # partial order
     'nan',  # non-reflexive
     'bool',
+    'nan_mixed',  # ints + floats + NaNs + a late str: the plain sort fails half-way, the fallback has ties
+    'fs_mixed',  # frozensets (partial order) + ints + strs
+    'tie_mixed',  # user keys that never order (no TypeError) + ints + strs
 )
 TOTAL_STYLES = {'str', 'int', 'intstr', 'tuple', 'float', 'bytes', 'mixed4', 'okey', 'hkey', 'bool'}
 LITERAL_STYLES = {'str', 'int', 'intstr', 'tuple', 'float', 'bytes', 'mixed4', 'bool'}
@@ -165,6 +183,32 @@ def gen_keys(rng: random.Random, n: int, style: str):
                 add(float(rng.randrange(10)))
         elif style == 'bool':
             add(rng.choice([True, False, 2, 3, 'True']))
+        elif style == 'nan_mixed':
+            r = rng.random()
+            if r < 0.25:
+                out.append(float('nan'))
+            elif r < 0.55:
+                add(rng.randrange(-5, 40))
+            elif r < 0.85:
+                add(rng.randrange(-5, 40) + 0.5)
+            elif len(out) >= n // 2:
+                add(rng.choice(_WORDS))
+        elif style == 'fs_mixed':
+            r = rng.random()
+            if r < 0.5:
+                add(frozenset(rng.sample(range(5), rng.randrange(0, 4))))
+            elif r < 0.85:
+                add(rng.randrange(20))
+            elif len(out) >= n // 2:
+                add(rng.choice(_WORDS))
+        elif style == 'tie_mixed':
+            r = rng.random()
+            if r < 0.5:
+                out.append(TieKey(rng.randrange(100)))
+            elif r < 0.85:
+                add(rng.randrange(20))
+            elif len(out) >= n // 2:
+                add(rng.choice(_WORDS) + str(rng.randrange(10)))
         else:
             raise ValueError(style)
     rng.shuffle(out)
@@ -255,12 +299,12 @@ class Profile:
 _ALL = {
     'tuple': 3, 'list': 3, 'deque': 2, 'dict': 4, 'odict': 3, 'ddict': 3, 'nt': 3, 'ss': 1.5,
     'cseq': 1.5, 'clist': 1, 'cmap': 1.5, 'cattr': 1, 'cns': 1, 'cshadow': 1.5, 'cuser': 1, 'udict': 1,
-    'dc': 1, 'dcg': 1, 'partial': 1,
+    'dc': 1, 'dcg': 1, 'partial': 1, 'pdc': 1,
 }
 PROFILES = {
     'mixed': Profile('mixed', _ALL),
     'dicts': Profile('dicts', {'dict': 5, 'odict': 4, 'ddict': 4, 'cmap': 1, 'udict': 1, 'cseq': 1, 'tuple': 1}),
-    'custom': Profile('custom', {k: v for k, v in _ALL.items() if k.startswith('c') or k in ('udict', 'dc', 'dcg', 'partial', 'dict', 'odict')}),
+    'custom': Profile('custom', {k: v for k, v in _ALL.items() if k.startswith('c') or k in ('udict', 'dc', 'dcg', 'partial', 'dict', 'odict', 'pdc')}),
     'seq': Profile('seq', {'tuple': 3, 'list': 3, 'deque': 3, 'nt': 3, 'ss': 2}),
     'none': Profile('none', {'tuple': 2, 'list': 2, 'dict': 2, 'nt': 1, 'cseq': 1}, none_p=0.45),
     'plain': Profile('plain', {'tuple': 3, 'list': 3, 'dict': 3, 'odict': 2, 'ddict': 2, 'deque': 2, 'nt': 2},
@@ -339,6 +383,8 @@ class TreeGen:
             return D('custom', kids(2), cls=U.DC, meta=rng.choice([0, 'z', (1, 2)]))
         if k == 'dcg':
             return D('custom', kids(2), cls=U.DCG, meta=rng.choice(['t', 'u', 3]))
+        if k == 'pdc':
+            return D('custom', kids(3), cls=U.PDC)
         if k == 'partial':
             na = rng.randrange(0, 3)
             nk = rng.randrange(0, 3)
@@ -374,7 +420,7 @@ def fresh(x):
     if t is frozenset:
         return frozenset(list(x)) if x else x
     if t in (UKey, OKey, HKey):
-        return t(x.v)
+        return t(x.v)  # TieKey compares by identity: keep the object
     return x
 
 
@@ -575,6 +621,8 @@ class Mat:
                 return U.DC(kids[0], kids[1], meta)
             if d.cls is U.DCG:
                 return U.DCG(p=kids[0], q=kids[1], tag=meta)
+            if d.cls is U.PDC:
+                return U.PDC(kids[0], kids[1], kids[2])
             return d.cls(kids, meta)
         if k == 'cmap':
             return U.CMap([self.make(c) for _, c in d.items], fresh(d.meta), [fresh(n) for n, _ in d.items])
